@@ -82,4 +82,194 @@ pub mod proofs {
         draw::reached();
         contract_item_header(t, id, size, raw);
     });
+    // ---- sampled (native PRNG driver only; never counted as proved) ----
+    #[cfg(not(kani))]
+    harness!(sampled_df_wellformed, unwind = 1, {
+        use super::dfgen::*;
+        let version = if draw::bool() { 3 } else { 4 };
+        let types = [0u16, 1, 2, 5, 0x7fff, 0xffff];
+        let nt = draw::usize_le(6);
+        let items = super::sampled_gen::draw_items(&types[..nt], 4, &|_, _| (0..draw::usize_le(6)).map(|_| draw::i32()).collect());
+        let data = super::sampled_gen::draw_blocks(5);
+        draw::reached();
+        super::sampled::contract_wellformed(version, &items, &data);
+        let _: Option<DfItem> = None;
+    });
+    #[cfg(not(kani))]
+    harness!(sampled_df_corrupt_total, unwind = 1, {
+        use super::dfgen::*;
+        let version = if draw::bool() { 3 } else { 4 };
+        let types = [0u16, 1, 2, 5, 0x7fff, 0xffff];
+        let nt = draw::usize_le(6);
+        let items = super::sampled_gen::draw_items(&types[..nt], 3, &|_, _| (0..draw::usize_le(4)).map(|_| draw::i32()).collect());
+        let data = super::sampled_gen::draw_blocks(4);
+        let (mut bytes, lay) = write_datafile(version, &items, &data);
+        super::sampled_gen::corrupt(&mut bytes, &lay);
+        draw::reached();
+        super::sampled::contract_traverse(&bytes);
+    });
+    #[cfg(not(kani))]
+    harness!(sampled_df_random_bytes, unwind = 1, {
+        // random bytes behind a plausible version header
+        let mut bytes = b"DATA".to_vec();
+        bytes.extend_from_slice(&(if draw::bool() { 3i32 } else { 4i32 }).to_le_bytes());
+        for _ in 0..draw::usize_le(40) {
+            bytes.extend_from_slice(&draw::i32().to_le_bytes());
+        }
+        draw::reached();
+        super::sampled::contract_traverse(&bytes);
+    });
+
+}
+
+// ---- sampled contracts over the file-level datafile reader (C16): native PRNG driver only ---------------------------
+// The Verus unit df_reader proves Reader::check and the accessors under its representation invariant; file I/O
+// callbacks, zlib and the iterators are outside.  These bodies state the property end to end ("open any file and call
+// everything"; "a well-formed file is returned exactly") on files from an independent writer (kani/dfgen.rs).
+#[cfg(not(kani))]
+#[path = "/verif/kani/dfgen.rs"]
+pub mod dfgen;
+
+#[cfg(not(kani))]
+pub mod sampled {
+    use super::dfgen::*;
+    use crate::Reader;
+
+    /// everything the reader exposes returns values or errors; cross-checks that must hold for every ACCEPTED file
+    pub fn traverse(r: &mut Reader) {
+        let _ = r.version();
+        let ni = r.num_items();
+        let nd = r.num_data();
+        let nt = r.num_item_types();
+        assert!(r.items().count() == ni, "items() yields num_items items");
+        assert!(r.item_types().count() == nt);
+        let mut seen = 0usize;
+        for i in 0..ni {
+            let it = r.item(i);
+            let (t, id, len) = (it.type_id, it.id, it.data.len());
+            seen += len;
+            let f = r.find_item(t, id).expect("an existing item is found by its type and id");
+            assert!(f.type_id == t && f.id == id, "find_item returns the asked type and id");
+        }
+        let _ = seen;
+        for k in 0..nt {
+            let t = r.item_type(k);
+            let range = r.item_type_indices(t);
+            assert!(range.start <= range.end && range.end <= ni, "item type range inside the items");
+            assert!(r.item_type_items(t).count() == range.len());
+        }
+        // a type id that does not occur has an empty range
+        let _ = r.item_type_indices(0xfffe).len();
+        let _ = r.find_item(0xfffe, 0);
+        for d in 0..nd {
+            let _ = r.read_data(d);
+        }
+        let n = r.data_iter().count();
+        assert!(n == nd);
+        let _ = r.debug_dump();
+    }
+    pub fn contract_traverse(bytes: &[u8]) {
+        let f = TempFile::new(bytes);
+        if let Ok(mut r) = Reader::open(&f.0) {
+            traverse(&mut r);
+        }
+    }
+    /// a well-formed file is accepted and returns exactly the stored items and (decompressed) data, versions 3 and 4
+    pub fn contract_wellformed(version: i32, items: &[DfItem], data: &[Vec<u8>]) {
+        let (bytes, _) = write_datafile(version, items, data);
+        let f = TempFile::new(&bytes);
+        let mut r = match Reader::open(&f.0) {
+            Ok(r) => r,
+            Err(e) => panic!("well-formed file refused: {:?}", e),
+        };
+        assert!(r.num_items() == items.len() && r.num_data() == data.len());
+        for (i, it) in items.iter().enumerate() {
+            let v = r.item(i);
+            assert!(v.type_id == it.type_id && v.id == it.id && v.data == &it.data[..], "item differs");
+        }
+        for (i, d) in data.iter().enumerate() {
+            let got = r.read_data(i).expect("stored data block unreadable");
+            assert!(&got == d, "data block differs");
+        }
+        traverse(&mut r);
+    }
+}
+
+#[cfg(not(kani))]
+pub mod sampled_gen {
+    use super::dfgen::*;
+    use super::draw;
+    /// items grouped by type; ids unique inside a type; lengths 0..6
+    pub fn draw_items(types: &[u16], max_per_type: usize, data_for: &dyn Fn(u16, usize) -> Vec<i32>) -> Vec<DfItem> {
+        let mut v = Vec::new();
+        for &t in types {
+            let n = draw::usize_le(max_per_type);
+            for k in 0..n {
+                v.push(DfItem { type_id: t, id: k as u16, data: data_for(t, k) });
+            }
+        }
+        v
+    }
+    pub fn draw_blocks(max: usize) -> Vec<Vec<u8>> {
+        (0..draw::usize_le(max))
+            .map(|_| {
+                let n = [0, 1, 3, 4, 8, 16, 64][draw::usize_le(6)] + draw::usize_le(3);
+                let mode = draw::usize_le(2);
+                (0..n).map(|i| match mode { 0 => 0u8, 1 => i as u8, _ => draw::u8() }).collect()
+            })
+            .collect()
+    }
+    /// single-field corruptions with boundary values, truncation, garbage in the data section
+    pub fn corrupt(bytes: &mut Vec<u8>, lay: &Layout) {
+        for _ in 0..draw::usize_le(2) {
+            let section = draw::usize_le(6);
+            let (lo, hi) = match section {
+                0 => (lay.header, lay.item_types),
+                1 => (lay.item_types, lay.item_offsets),
+                2 => (lay.item_offsets, lay.data_offsets),
+                3 => (lay.data_offsets, lay.data_sizes),
+                4 => (lay.data_sizes, lay.items),
+                5 => (lay.items, lay.data),
+                _ => (lay.data, bytes.len()),
+            };
+            if hi <= lo {
+                continue;
+            }
+            if section == 6 {
+                let p = lo + draw::usize_le(hi - lo - 1);
+                bytes[p] = draw::u8();
+                continue;
+            }
+            let words = (hi - lo) / 4;
+            if words == 0 {
+                continue;
+            }
+            let p = lo + 4 * draw::usize_le(words - 1);
+            let old = i32::from_le_bytes([bytes[p], bytes[p + 1], bytes[p + 2], bytes[p + 3]]);
+            let len = bytes.len() as i32;
+            let v: i32 = match draw::usize_le(15) {
+                0 => 0,
+                1 => 1,
+                2 => -1,
+                3 => i32::MIN,
+                4 => i32::MAX,
+                5 => old.wrapping_add(1),
+                6 => old.wrapping_sub(1),
+                7 => old.wrapping_add(4),
+                8 => old.wrapping_sub(4),
+                9 => old.wrapping_add(2),
+                10 => len,
+                11 => len - (lay.data as i32),
+                12 => 0x10000,
+                13 => 0xffff,
+                14 => old.wrapping_mul(2),
+                _ => draw::i32(),
+            };
+            bytes[p..p + 4].copy_from_slice(&v.to_le_bytes());
+        }
+        if draw::usize_le(3) == 0 {
+            let cut = draw::usize_le(bytes.len());
+            bytes.truncate(cut);
+        }
+    }
 }
